@@ -1333,13 +1333,14 @@ theorem o_plain {N : Nat} {s : FState} {sep : List Rune} {a : Rune} {as : List R
   rw [this.2]
   simp [afterSep, h.nest]
 
-/-- a `{` is pending and a comment follows on a later line -/
+/-- a `{` is pending and a comment follows, on a later line or on the same line (the brace is
+    written with its newline first, so the comment always lands on the next line) -/
 theorem o_cmt {N : Nat} {s : FState} {sep : List Rune} {as : List Rune}
-    (h : InvO N s) (hsep : sep.all wsCh = true) (hnl : 1 ≤ countNL sep)
+    (h : InvO N s) (hsep : sep.all wsCh = true) (hnl : sep ≠ [])
     (has : as.all cmtCh = true) (hlast : isSpace (lastOf rHash as) = false) :
     InvM N ((sep ++ rHash :: as).foldl step s) ∧
       ((sep ++ rHash :: as).foldl step s).rout = as.reverse ++ (rHash :: (tabsN N ++ (rNL :: rOpen :: s.rout))) := by
-  rw [List.foldl_append, foldl_ws sep s h.reg hsep (countNL_pos_ne_nil hnl)]
+  rw [List.foldl_append, foldl_ws sep s h.reg hsep hnl]
   have hreg := reg_afterSep h.reg sep
   have hstep := pending_start (t := afterSep s sep) hreg hash_start rfl h.ob h.obw h.last h.shape
   have := cmt_word (N := N) (as := as) hstep has hlast rfl hreg.quoted hreg.escaped hreg.heredoc hreg.bq hreg.hst hreg.te hreg.cont
@@ -1821,7 +1822,7 @@ theorem chunk_step_core {prev : Option Kind} {N : Nat} {s : FState} {c : Chunk} 
         | opn =>
           have hinv' : InvO N s := hinv
           simp only [hk, Bool.and_eq_true, decide_eq_true_eq] at hcond
-          have := o_lb hinv' hsep hcond.1 hc' has
+          have := o_lb hinv' hsep (by simpa [Chunk.nl] using hcond.1) hc' has
           refine ⟨this.1, ?_⟩
           rw [outOf_np this.1.np, outOf_o hinv', this.2]
           simp [canonSep, hk, reverse_tabsN]
@@ -1882,7 +1883,7 @@ theorem chunk_step_core {prev : Option Kind} {N : Nat} {s : FState} {c : Chunk} 
         | opn =>
           have hinv' : InvO N s := hinv
           simp only [hk, Bool.and_eq_true, decide_eq_true_eq] at hcond
-          have := o_plain hinv' hsep hcond.1 ha has
+          have := o_plain hinv' hsep (by simpa [Chunk.nl] using hcond.1) ha has
           refine ⟨this.1, ?_⟩
           rw [outOf_np this.1.np, outOf_o hinv', this.2]
           simp [canonSep, hk, reverse_tabsN]
@@ -1942,7 +1943,14 @@ theorem chunk_step_core {prev : Option Kind} {N : Nat} {s : FState} {c : Chunk} 
       | opn =>
         have hinv' : InvO N s := hinv
         simp only [hk, Bool.and_eq_true, decide_eq_true_eq] at hcond
-        have := o_cmt hinv' hsep hcond.1 has hlast
+        have hne : c.sep ≠ [] := by
+          have h1 := hcond.1
+          simp only [Bool.or_eq_true, decide_eq_true_eq, Bool.and_eq_true, Bool.not_eq_true',
+            List.isEmpty_eq_false_iff] at h1
+          rcases h1 with h1 | h1
+          · exact countNL_pos_ne_nil h1
+          · exact h1.2
+        have := o_cmt hinv' hsep hne has hlast
         refine ⟨this.1, ?_⟩
         rw [outOf_m this.1, outOf_o hinv', this.2]
         simp [canonSep, hk, reverse_tabsN]
@@ -2002,7 +2010,7 @@ theorem chunk_step_core {prev : Option Kind} {N : Nat} {s : FState} {c : Chunk} 
         | opn =>
           have hinv' : InvO N s := hinv
           simp only [hk, Bool.and_eq_true, decide_eq_true_eq] at hcond
-          have := o_dq hinv' hsep hcond.1 has
+          have := o_dq hinv' hsep (by simpa [Chunk.nl] using hcond.1) has
           refine ⟨this.1, ?_⟩
           rw [outOf_q this.1, outOf_o hinv', this.2]
           simp [canonSep, hk, reverse_tabsN]
@@ -2060,7 +2068,7 @@ theorem chunk_step_core {prev : Option Kind} {N : Nat} {s : FState} {c : Chunk} 
         | opn =>
           have hinv' : InvO N s := hinv
           simp only [hk, Bool.and_eq_true, decide_eq_true_eq] at hcond
-          have := o_bq hinv' hsep hcond.1 has
+          have := o_bq hinv' hsep (by simpa [Chunk.nl] using hcond.1) has
           refine ⟨this.1, ?_⟩
           rw [outOf_q this.1, outOf_o hinv', this.2]
           simp [canonSep, hk, reverse_tabsN]
@@ -2132,7 +2140,7 @@ theorem chunk_step_core {prev : Option Kind} {N : Nat} {s : FState} {c : Chunk} 
       | opn =>
         have hinv' : InvO N s := hinv
         simp only [hk, Bool.and_eq_true, decide_eq_true_eq] at hcond
-        have := o_close hinv' hsep hcond.1
+        have := o_close hinv' hsep (by simpa [Chunk.nl] using hcond.1)
         refine ⟨this.1, ?_⟩
         rw [outOf_np this.1.np, outOf_o hinv', this.2]
         simp [canonSep, hk, reverse_tabsN]
